@@ -13,6 +13,8 @@ layer), `BzSpec` (libbz2 on stdio); `refGzSpec` / `refBzSpec` show they are sati
 -/
 import Osmium.Lemmas.WriterSMLive
 import Osmium.Lemmas.WriterSMQueue
+import Osmium.Lemmas.WriterSMEnd
+import Osmium.Lemmas.WriterSMRank
 
 namespace Osmium.C08
 
@@ -151,7 +153,129 @@ theorem threads_finish (h0 : S.Inv k0 os0 []) (hd : ∃ ib e, Api.dtor ib e ∈ 
   obtain ⟨e, s', h⟩ := inv2_enabled S (inv2_reachable S h0 hd hr) hnd
   exact ⟨e, s', h⟩
 
+/-- **Progress (ranking function).**  Every step of every thread, from every reachable state,
+    strictly decreases the natural-number measure `rank` (remaining script and code of the
+    producer, queue length, unfinished pool tasks, write-thread pc).  There is no busy
+    waiting in the model — a blocked thread has no step — so no fairness assumption is needed. -/
+theorem every_step_decreases_rank (h0 : S.Inv k0 os0 []) {s s' : St κ} {e : Ev}
+    (hr : (machine cfg k0 os0 script).Reachable s) (hs : (machine cfg k0 os0 script).Step s e s') :
+    rank cfg s' < rank cfg s :=
+  rank_step (inv1_reachable S h0 hr).prod.idle hs
+
+/-- hence every run is finite: a run of k steps from a reachable state needs k ≤ rank -/
+theorem runs_are_bounded (h0 : S.Inv k0 os0 []) : ∀ (tr : List Ev) (s s' : St κ) (i : Nat),
+    (machine cfg k0 os0 script).Reachable s → (machine cfg k0 os0 script).run? s tr i = .ok s' →
+    tr.length + rank cfg s' ≤ rank cfg s := by
+  intro tr
+  induction tr with
+  | nil => intro s s' i _ h; simp [Machine.run?] at h; subst h; simp
+  | cons e rest ih =>
+    intro s s' i hr h
+    unfold Machine.run? at h
+    split at h
+    · next s1 h1 =>
+      have hd := every_step_decreases_rank S h0 hr h1
+      have := ih s1 s' (i + 1) (.step hr h1) h
+      simp only [List.length_cons]
+      omega
+    · cases h
+
+/-- **threads_finish, with progress**: whatever the scheduler does, after at most `rank s` steps
+    the run cannot be continued, and a run that cannot be continued has destroyed the Writer:
+    close() has returned or thrown, ~Writer has joined the write thread, all threads are done. -/
+theorem threads_finish_progress (h0 : S.Inv k0 os0 []) (hd : ∃ ib e, Api.dtor ib e ∈ script)
+    {s s' : St κ} {tr : List Ev} (hr : (machine cfg k0 os0 script).Reachable s)
+    (hrun : (machine cfg k0 os0 script).run? s tr = .ok s')
+    (hmax : ¬ (machine cfg k0 os0 script).Enabled s') :
+    s'.destroyed = true ∧ tr.length ≤ rank cfg s := by
+  have hr' := Machine.run?_reachable _ s s' tr 0 hr hrun
+  refine ⟨?_, by have := runs_are_bounded S h0 tr s s' 0 hr hrun; omega⟩
+  cases hdes : s'.destroyed with
+  | true => rfl
+  | false => exact absurd (threads_finish S h0 hd hr' hdes) hmax
+
+/-- `Inv1` and the end-marker invariant together, for a writer whose encoders never yield the
+    empty string -/
+theorem endInv_reachable (h0 : S.Inv k0 os0 []) (hg : cfg.hdrEnc.good = true)
+    (hsg : ∀ a ∈ script, a.good = true) {s : St κ}
+    (hr : (machine cfg k0 os0 script).Reachable s) : EndInv s :=
+  (Machine.invariant (machine cfg k0 os0 script) (fun s => Inv1 S s ∧ EndInv s)
+    ⟨inv1_init S script h0, endInv_init hsg⟩
+    (fun _ _ _ _ hi hs => by
+      refine ⟨inv1_step S hi.1 hs, ?_⟩
+      rcases step_cases hs with h | h | h
+      · exact endInv_prod hg hi.1.prod hi.2 h
+      · exact endInv_wt hi.2 h
+      · exact endInv_worker hi.2 h) s hr).2
+
 end generic
+
+/-! ## The repaired writer (fix fb588a3): everything handed over is in the file -/
+
+section repaired
+variable {κ : Type} {cfg : Cfg κ} {enc : List Bytes → Bytes} (S : CompSpec cfg.comp enc)
+  {k0 : κ} {os0 : OS} {script : List Api}
+
+/-- **close_ok_all_handed_over** — the FULL clause, for the writer of the current tree
+    (`repairedMachine`: any script, any header, through output formats that skip blocks
+    without writable objects), any compressor meeting its contract, all OS schedules, all
+    interleavings: if `close()` returns n as the first loud event then EVERY push ever
+    attempted by the caller's calls (ghost `pushed`: header, all blocks of all calls, nothing
+    dropped by a shut-down queue, no encoder failure) is a block the write thread wrote,
+    followed by exactly one end-of-data marker; the file is the encoding of precisely these
+    blocks, n is its size and the OS never delivered an error response. -/
+theorem close_ok_all_handed_over (h0 : S.Inv k0 os0 []) {s : St κ}
+    (hr : (repairedMachine cfg k0 os0 script).Reachable s) {ib : Option Enc} {eEnd : Enc} {n : Nat}
+    (hfl : firstLoud s.results = some (.close ib eEnd, .ok n)) :
+    s.pushed = s.written.map Res.data ++ [Res.data []] ∧
+    s.os.file = enc s.written ∧ n = s.os.file.length ∧ s.os.faults = 0 := by
+  have hr' : (machine cfg.repair k0 os0 (script.map Api.repair)).Reachable s := hr
+  obtain ⟨hfa, hfile, hn, tail, ht⟩ := close_ok_implies_complete (cfg := cfg.repair) S h0 hr' hfl
+  refine ⟨?_, hfile, hn, hfa⟩
+  have he := endInv_reachable (cfg := cfg.repair) S h0 (good_repair_enc cfg.hdrEnc)
+    (fun a ha => by obtain ⟨b, _, rfl⟩ := List.mem_map.mp ha; exact good_repair_api b) hr'
+  have hwc : clean (s.written.map Res.data) := by
+    intro hm
+    obtain ⟨b, hb, hb0⟩ := List.mem_map.mp hm
+    simp at hb0
+    exact (qInv_reachable hr').writtenNe b hb hb0
+  have hin : Res.data [] ∈ s.pushed := by rw [ht]; simp
+  rcases hst : s.status with _ | _ | _
+  · exact absurd hin (he.okay hst).1
+  · obtain ⟨hea, _⟩ := he.error hst
+    obtain ⟨e, hex⟩ := hea _ _ ht
+    obtain ⟨b, _, hb⟩ := List.mem_map.mp hex
+    cases hb
+  · rcases he.closed hst with ⟨hc, _⟩ | ⟨⟨pre, hpre, hcp⟩, _⟩
+    · exact absurd hin hc
+    · rw [hpre] at ht
+      obtain ⟨h1, h2⟩ := first_end_unique pre _ tail hcp hwc ht
+      rw [hpre, h1]
+
+/-- NoCompressor instance: the file is, byte for byte, the concatenation of every data block
+    the caller's calls handed over. -/
+theorem close_ok_all_handed_over_none {sync : Bool} {hdr : Enc} {qmax : Nat} {script : List Api}
+    {s : St NoState}
+    (hr : (repairedMachine ⟨noComp, hdr, qmax⟩ { sync := sync } {} script).Reachable s)
+    {ib : Option Enc} {eEnd : Enc} {n : Nat}
+    (hfl : firstLoud s.results = some (.close ib eEnd, .ok n)) :
+    s.os.file = (s.pushed.filterMap fun r => match r with | .data b => some b | .exc _ => none).flatten ∧
+    n = s.os.file.length := by
+  obtain ⟨hp, hfile, hn, _⟩ := close_ok_all_handed_over (cfg := ⟨noComp, hdr, qmax⟩) noSpec
+    ⟨rfl, rfl, rfl, rfl⟩ hr hfl
+  refine ⟨?_, hn⟩
+  rw [hfile, hp]
+  have hid : ((fun r => match r with | Res.data b => some b | Res.exc _ => none) ∘ Res.data) =
+      (some : Bytes → Option Bytes) := by funext b; rfl
+  simp [List.filterMap_append, List.filterMap_map, hid]
+
+/-- … and the other clauses carry over unchanged, e.g. no stuck state -/
+theorem threads_finish_repaired (h0 : S.Inv k0 os0 []) (hd : ∃ ib e, Api.dtor ib e ∈ script)
+    {s : St κ} (hr : (repairedMachine cfg k0 os0 script).Reachable s) (hnd : s.destroyed = false) :
+    (repairedMachine cfg k0 os0 script).Enabled s :=
+  threads_finish (cfg := cfg.repair) S h0 (dtor_mem_repair hd) hr hnd
+
+end repaired
 
 /-! ## The three compressors -/
 
@@ -247,7 +371,8 @@ def encFailScript : List Api :=
 example : ((runSched demoCfg true 200 (initSt { sync := false } {} encFailScript)).2.results.map (·.2)) =
     [.ok 0, .raised (.enc 7), .ok 0, .ok 0] := by decide +kernel
 
-/-- **The clause the current code refutes.**  A block that encodes to the EMPTY string (a
+/-- **The defect of the PRE-FIX writer (documentation; fixed by fb588a3).**  On a raw script —
+    i.e. through output formats that submit a block even if it encodes to nothing — a block that encodes to the EMPTY string (a
     buffer holding only objects the format does not write, e.g. an Area handed to an OPL/XML
     Writer) is indistinguishable from the end-of-data marker (queue_util.hpp:89-95,
     write_thread.hpp:89-92): the write thread closes the file, everything handed over later is
@@ -263,39 +388,26 @@ theorem emptyBlockRun_reachable :
     (machine demoCfg { sync := false } {} emptyBlockScript).Reachable emptyBlockRun :=
   runSched_reachable true 200 _ .init
 
-/-- the full-strength statement one would like: a close() that returns normally as the first
-    loud event implies that ALL data handed over is in the file -/
-def CloseOkMeansAllHandedOver : Prop :=
+/-- the full clause stated for the PRE-FIX writer (raw scripts, `machine`) -/
+def PreFixCloseOkMeansAllHandedOver : Prop :=
   ∀ (sync : Bool) (script : List Api) (s : St NoState),
     (machine demoCfg { sync := sync } {} script).Reachable s →
     ∀ ib eEnd n, firstLoud s.results = some (.close ib eEnd, .ok n) → CompleteAll s
 
-/-- refuted by the current code: close() returns 2, no exception anywhere, block [3] is lost -/
-theorem close_ok_all_handed_over_refuted : ¬ CloseOkMeansAllHandedOver := by
+/-- … was false: close() returns 2, no exception anywhere, block [3] is lost.  The check keeps
+    the two repros as regression probes (`empty-block-ends-output:opl|xml`). -/
+theorem prefix_close_ok_all_handed_over_refuted : ¬ PreFixCloseOkMeansAllHandedOver := by
   intro h
   have := h false emptyBlockScript emptyBlockRun emptyBlockRun_reachable none {} 2 (by decide +kernel)
   revert this
   decide +kernel
 
-/-- What IS proved instead (`close_ok_implies_complete`): the file holds exactly the blocks
-    handed over before the first empty one.  If no block handed over before the `close()`
-    marker encodes to the empty string — `NoEmptyBlock` — and nothing is pushed after that
-    marker, this is everything.  The `_partial` form states the missing hypothesis
-    explicitly: the ghost `pushed` list is `blocks ++ [end marker]`. -/
-theorem close_ok_all_handed_over_partial {sync : Bool} {hdr : Enc} {qmax : Nat} {script : List Api}
-    {s : St NoState}
-    (hr : (machine ⟨noComp, hdr, qmax⟩ { sync := sync } {} script).Reachable s)
-    {ib : Option Enc} {eEnd : Enc} {n : Nat}
-    (hfl : firstLoud s.results = some (.close ib eEnd, .ok n))
-    (blocks : List Bytes) (hne : ∀ b ∈ blocks, b ≠ [])
-    (hpushed : s.pushed = blocks.map Res.data ++ [Res.data []]) :
-    s.os.file = blocks.flatten ∧ n = s.os.file.length := by
-  obtain ⟨_, hfile, hn, tail, ht⟩ := close_ok_implies_complete (cfg := ⟨noComp, hdr, qmax⟩) noSpec
-    ⟨rfl, rfl, rfl, rfl⟩ hr hfl
-  refine ⟨?_, hn⟩
-  rw [hfile]
-  congr 1
-  rw [hpushed] at ht
-  exact (split_at_first_empty blocks s.written tail hne (qInv_reachable hr).writtenNe ht).symm
+/-- the same script through the repaired output formats: the empty block is never submitted,
+    the file is complete -/
+def repairedEmptyBlockRun : St NoState :=
+  (runSched demoCfg.repair true 200 (initSt { sync := false } {} (emptyBlockScript.map Api.repair))).2
+
+example : repairedEmptyBlockRun.os.file = [1, 2, 3] ∧ CompleteAll repairedEmptyBlockRun ∧
+    firstLoud repairedEmptyBlockRun.results = some (.close none {}, .ok 3) := by decide +kernel
 
 end Osmium.C08
